@@ -394,6 +394,24 @@ class SymReal:
 
     def sqrt(self): return SymReal(POW(self.t, z3.RealVal('1/2')))
 
+    # further unary/binary ufunc methods numpy looks up on object elements
+    def expm1(self): return self.exp() - 1
+    def log1p(self): return (self + 1).log()
+    def exp2(self): return (self * math.log(2.0)).exp()
+    def log2(self): return self.log() / math.log(2.0)
+    def log10(self): return self.log() / math.log(10.0)
+    def square(self): return self * self
+    def reciprocal(self): return 1 / self
+    def cbrt(self): return SymReal(POW(self.t, z3.RealVal('1/3')))
+
+    def logaddexp(self, o):
+        if not isinstance(o, SymReal):
+            o = SymReal(tz(o))
+        return (self.exp() + o.exp()).log()
+
+    def rlogaddexp(self, o):
+        return self.logaddexp(o)
+
     def __bool__(self):
         # python truthiness of a number: x != 0
         return Ctx.cur.branch(self.t != 0)
